@@ -1,9 +1,16 @@
 import BV.Drive.PrefixArith
+import BV.Drive.Concat
+import BV.Drive.Pool
+import BV.Drive.Huffman
 
 /-- line protocol: `<engine> <args…>` in, one canonical line out -/
 def dispatch (line : String) : String :=
   match line.trimAscii.toString.splitOn " " with
   | "arith" :: rest => BV.Drive.PrefixArith.handle rest
+  | "concat" :: rest => BV.Drive.Concat.handle rest
+  | "pool" :: rest => BV.Drive.Pool.handlePool rest
+  | "fq" :: rest => BV.Drive.Pool.handleFq rest
+  | "huff" :: rest => BV.Drive.Huffman.handle rest
   | _ => "bad-engine"
 
 partial def loop (h : IO.FS.Stream) (out : IO.FS.Stream) : IO Unit := do
